@@ -512,15 +512,14 @@ def run_ship(mod, ctx, acc, name, k, parts, only=None):
     return msgs
 
 
-BIG = ("packed-500-cases", "sparse-500-cases", "far-offsets", "array-80000-bytes")
+BIG = M.BIG
 
 
 def run_big(mod, acc, name):
-    """Field maxima: one fixed representative per large size / offset / count field (gen/methods.big_methods)."""
+    """Field maxima and encoding-width boundaries: fixed representatives (gen/methods.BIG_BUILDERS)."""
     decoy()
-    for n, code, tries, handlers in M.big_methods():
-        if n != name:
-            continue
+    for _once in (0,):
+        code, tries, handlers = M.big_method(name)
         rm = R.from_bytes(code, tries, handlers)
         w = {"big": name}
         try:
@@ -536,7 +535,8 @@ def run_big(mod, acc, name):
         acc.nt.add(h8(("big", name)))
         acc.count("field_maxima_methods")
         for key, msg in mod.judge(acc, rm, obs, "aligned", ma=ma, gen=False) + alt_violations(mod, obs):
-            acc.violation(key + ":big:" + name, w, "%s\n  method: field-maximum representative %s" % (msg, name))
+            fam = name.rsplit("-", 1)[0] if name.startswith("handlers-") else name
+            acc.violation(key + ":big:" + fam, w, "%s\n  method: field-maximum / width-boundary representative %s" % (msg, name))
 
 
 # --------------------------------------------------------------------------------------------------- entry points
@@ -590,7 +590,7 @@ def space_common(ctx, plans):
                               "F": "sget"},
             "targets": "every slot 0..n (n = the appended final return-void), t <= u for switches",
             "plans": [dict(p, methods=plan_size(p)) for p in plans],
-            "field_maxima": list(BIG),
+            "field_maxima_and_width_boundaries": list(BIG),
             "decoy_history": "before every batch / shipped shard / replay a fixed different DEX with the same class, method "
                              "and field names (LT; m0..m3 callee f) is loaded and analysed, results ignored",
             "alternative_entry_points": "BasicBlocks list forms, get_basic_block, get_nb_instructions, get_last (C10); "
